@@ -127,7 +127,7 @@ impl Sub for Faults {
             .boxed()
     }
     fn mandatory_labels(&self, _t: Tier) -> Vec<&'static str> {
-        vec!["fired@indexer", "fired@updater", "fired@merge", "fired@compressor", "api_error_surfaced", "commit_ok_after_fault", "recover:rollback", "recover:drop", "no_leftover_checked_after_recovery", "delete_fault_fired_then_no_leftover_checked"]
+        vec!["fired@indexer", "fired@updater", "fired@merge", "fired@compressor", "api_error_surfaced", "commit_ok_after_fault", "recover:rollback", "recover:drop", "no_leftover_checked_after_recovery", "delete_fault_fired_then_no_leftover_checked", "failed_transaction_issued_again"]
     }
     fn run(&self, c: &FaultCase, cx: &Ctx) -> CaseResult {
         // write the case where the child can read it
@@ -304,6 +304,9 @@ fn account(cx: &Ctx, v: &Value, f: &FaultSpec, fingerprint: u64) {
     if v.get("gc_after_failure").and_then(|b| b.as_bool()).unwrap_or(false) {
         cx.label("gc_after_failed_call");
     }
+    if v.get("retried").and_then(|b| b.as_bool()).unwrap_or(false) {
+        cx.label("failed_transaction_issued_again");
+    }
     if v.get("leak_checked").and_then(|b| b.as_bool()).unwrap_or(false) {
         cx.label("no_leftover_checked_after_recovery");
         let delete_fired = v.get("fired_by").and_then(|m| m.as_object()).map(|m| m.keys().any(|k| k.starts_with("Delete"))).unwrap_or(false);
@@ -367,7 +370,7 @@ pub fn child_main(args: &[String]) -> i32 {
         let v = match res {
             Ok(r) => json!({
                 "fired": r.fired, "fired_by": r.fired_by, "api_error": r.api_error, "commit_ok_after_fault": r.commit_ok_after_fault,
-                "recovered_by": r.recovered_by, "fired_after_first_call": r.fired_after_first_call, "merged_after_failure": r.merged_after_failure, "gc_after_failure": r.gc_after_failure, "leak_checked": r.leak_checked, "failure": Value::Null,
+                "recovered_by": r.recovered_by, "fired_after_first_call": r.fired_after_first_call, "merged_after_failure": r.merged_after_failure, "gc_after_failure": r.gc_after_failure, "leak_checked": r.leak_checked, "retried": r.retried, "failure": Value::Null,
             }),
             Err(fl) => json!({"fired": 1, "failure": {"sig": fl.sig, "detail": fl.detail}}),
         };
@@ -401,6 +404,7 @@ struct RunReport {
     merged_after_failure: bool,
     gc_after_failure: bool,
     leak_checked: bool,
+    retried: bool,
     fired_after_first_call: bool,
     log_kinds: Vec<(K, String, String)>,
     /// (thread, path) of every read of an opened file, in order (dry run only)
@@ -425,6 +429,8 @@ fn run_history(case: &FaultCase, fault: Option<(FaultRule, bool, bool, bool, boo
     }
     let mut failed_api: Option<(usize, String, String)> = None;
     let mut ops_done = 0usize;
+    // index of the first operation of the transaction in progress (the one after the last commit that returned Ok)
+    let mut txn_start = 0usize;
     for (i, op) in case.ops.iter().chain(std::iter::once(&Op::Commit)).enumerate() {
         let fired_before = sd.faults_fired();
         let commits_before = env.commits;
@@ -433,6 +439,7 @@ fn run_history(case: &FaultCase, fault: Option<(FaultRule, bool, bool, bool, boo
         match r {
             Ok(()) => {
                 if env.commits > commits_before {
+                    txn_start = i + 1;
                     // (b) a commit that returned Ok is complete, readable and durable
                     if fault.is_some() {
                         let log = sd.clone_log();
@@ -629,6 +636,38 @@ fn run_history(case: &FaultCase, fault: Option<(FaultRule, bool, bool, bool, boo
             other => return Err(Failure::new("after_fault:checksum", format!("{other:?}"))),
         }
     }
+    // (c') "a new writer can continue indexing normally": the transaction that failed is issued again, operation by
+    // operation, on a new writer of the recovered index - on healthy storage it has to go through, commit included
+    let mut base_model = models[found_j as usize].clone();
+    if let Some((failed_idx, _, _)) = &failed_api {
+        if found_j == j_ok {
+            let opstamp = fresh.load_metas().or_fail("after_fault:load_metas_failed")?.opstamp;
+            env.index = fresh.clone();
+            env.committed = base_model.clone();
+            env.commits = found_j;
+            env.models.truncate(found_j as usize + 1);
+            env.last_commit_opstamp = opstamp;
+            env.after_writer_gone().map_err(|fl| Failure::new(format!("after_fault:retry:{}", fl.sig), fl.detail))?;
+            let all_ops: Vec<&Op> = case.ops.iter().chain(std::iter::once(&Op::Commit)).collect();
+            for (k, op) in all_ops.iter().enumerate().skip(txn_start).take(failed_idx + 1 - txn_start.min(*failed_idx + 1)) {
+                env.apply(op, cx).map_err(|fl| {
+                    Failure::new(
+                        format!("after_fault:retry:{}", fl.sig),
+                        format!("(api error: {failed_api:?}) after recovery ({:?}) the failed transaction (ops #{txn_start}..=#{failed_idx}) was issued again on a new writer, op #{k} {op:?} failed: {}", rep.recovered_by, fl.detail),
+                    )
+                })?;
+            }
+            env.apply(&Op::Commit, cx).map_err(|fl| {
+                Failure::new(format!("after_fault:retry:{}", fl.sig), format!("(api error: {failed_api:?}) after recovery ({:?}) the failed transaction (ops #{txn_start}..=#{failed_idx}) was issued again on a new writer, the commit failed: {}", rep.recovered_by, fl.detail))
+            })?;
+            env.verify("after_fault:retry").map_err(|fl| Failure::new(format!("after_fault:retry:{}", fl.sig), fl.detail))?;
+            base_model = env.committed.clone();
+            if let Some(w) = env.writer.take() {
+                w.wait_merging_threads().or_fail("after_fault:wait_merging_threads_failed")?;
+            }
+            rep.retried = true;
+        }
+    }
     // (d) a new writer can be created and continues normally
     let mut w = crate::util::writer(&fresh, crate::util::WriterCfg::default()).or_fail("after_fault:new_writer_failed")?;
     let mut d = tantivy::TantivyDocument::new();
@@ -638,7 +677,7 @@ fn run_history(case: &FaultCase, fault: Option<(FaultRule, bool, bool, bool, boo
     d.add_i64(f.num, 0);
     w.add_document(d).or_fail("after_fault:add_failed")?;
     w.commit().or_fail("after_fault:commit_failed")?;
-    let mut exp = models[found_j as usize].clone();
+    let mut exp = base_model.clone();
     exp.insert(crate::crash::PROBE_UID, DocRec { grp: 0, words: vec![0], num: 0 });
     {
         let reader: tantivy::IndexReader = fresh.reader_builder().reload_policy(tantivy::ReloadPolicy::Manual).try_into().or_fail("after_fault:reader_open_failed")?;
